@@ -27,6 +27,9 @@ KNOWN = {}
 DECOS = ["require", "ensure", "snapshot", "invariant"]
 ENABLED = ["default", "True", "False", "SLOW"]
 KINDS = ["function", "async", "method", "staticmethod", "classmethod", "getter"]
+# the decorator stacked ABOVE @staticmethod / @classmethod receives the descriptor object itself; only the disabled
+# case is specified for that ("returns the very object it was given")
+DESCRIPTOR_KINDS = ["staticmethod-object", "classmethod-object"]
 INV_KINDS = ["plain-class", "dbc-class", "plain-subclass-of-invariant-class", "dbc-subclass-of-invariant-class"]
 MODES = [("normal", []), ("-O", ["-O"]), ("-OO", ["-OO"])]
 # "non-empty string" is the documented switch: strings that spell false, zero or blank are non-empty too
@@ -42,6 +45,9 @@ def cells():
             for k in (INV_KINDS if d == "invariant" else KINDS):
                 for b in (["bare"] if d == "invariant" else BASES):
                     yield d, e, k, b
+            if d in ("require", "ensure"):
+                for k in DESCRIPTOR_KINDS:
+                    yield d, e, k, "bare"
 
 
 # ---- worker side ------------------------------------------------------------------------------------------------
@@ -138,10 +144,28 @@ def eval_cell(deco, enabled, kind, base="bare"):
             def orig(self, x):  # noqa
                 counters["body"] += 1
                 return x
-    if kind == "classmethod":
+    if kind in ("classmethod", "classmethod-object"):
         def orig(cls, x):  # noqa
             counters["body"] += 1
             return x
+    if kind in DESCRIPTOR_KINDS:
+        desc = (staticmethod if kind.startswith("static") else classmethod)(orig)
+        desc.marker = "kept"
+        before = dict(vars(desc))
+        out = getattr(icontract, deco)(cond, **kw)(desc) if not expected_enabled_here(enabled) else desc
+        obs["identity"] = out is desc
+        obs["vars_unchanged"] = dict(vars(desc)) == before
+        obs["skipped"] = expected_enabled_here(enabled)
+        try:
+            type("H", (), {"f": out}).f(1)
+            obs["raised"] = None
+        except icontract.ViolationError:
+            obs["raised"] = "ViolationError"
+        except BaseException as e:  # noqa
+            obs["raised"] = "%s: %s" % (type(e).__name__, e)
+        obs["counters"] = dict(counters)
+        obs["foreign_ran"] = None
+        return obs
     orig.marker = "kept"
     if base != "bare":
         # the object handed to the decorator under test already carries an (enabled, satisfied) contract,
@@ -203,6 +227,13 @@ def eval_cell(deco, enabled, kind, base="bare"):
     obs["counters"] = dict(counters)
     obs["foreign_ran"] = (counters.get("foreign", 0) > 0) if base == "foreign-over-contracted" else None
     return obs
+
+
+def expected_enabled_here(enabled):
+    """Inside a worker: would a contract with this `enabled` be active in this interpreter?"""
+    import icontract
+
+    return {"default": __debug__, "True": True, "False": False, "SLOW": bool(icontract.SLOW)}[enabled]
 
 
 def worker():
@@ -383,6 +414,8 @@ def run(ctx, tier, seed, shard, nshards):
                 ctx.fail("cell-error|%s|%s|%s" % (d, e, k), case, "cell raised inside the worker: %s" % obs["error"])
                 continue
             exp = expected_enabled(e, mname, slow)
+            if k in DESCRIPTOR_KINDS and (exp or obs.get("skipped")):
+                continue  # what an ENABLED contract does with a descriptor object is not specified
             tag = "%s|enabled=%s|%s/%s|%s|ICONTRACT_SLOW=%s" % (d, e, k, bs, mname, sname)
             calls = obs["counters"]["cap" if d == "snapshot" else "cond"]
             if not exp:
